@@ -33,6 +33,8 @@ def features(t, env, out=None, inline=False, seen=None):
         if c is not None and c["lo"] is not None and c["hi"] is not None and not c["ext"] and _fits(c) is None:
             out.add("wide_int_fixed_oer")
         if c is not None and c["lo"] is not None and c["hi"] is None and c["lo"] != 0: out.add("semi_nonzero_lb")
+    if k == "NumericString" and not inline and not t.get("size") and not t.get("alpha"):
+        out.add("named_plain_numeric")
     if k == "PrintableString" and inline and not t.get("size") and not t.get("alpha"):
         out.add("inline_printable")
     if k in ("SEQUENCE", "SET", "CHOICE"):
